@@ -151,6 +151,41 @@ def run(chk):
                                  "(site weight) x (layer fraction) of the time step", {"n": n, "order": order, "bond": b, "dt": dt,
                                                                                    "err": float(np.max(np.abs(G - want)))})
     chk.count("uncoupled_gates_checked")
+    # ---- (b3) a two-site chain: its only gate is the exact pair propagator J of Props/C10 two_site_exact: exp(dt f/4 L) with
+    # L the full Lindbladian of the pair (both site terms with weight one, coupling, site and nearest-neighbour dissipators)
+    for it2 in range(4 if thorough else 2):
+        h0, h1 = [rng.uniform(-1, 1) * SZ + rng.uniform(-1, 1) * SX + rng.uniform(-1, 1) * oqupy.operators.sigma("y") for _ in range(2)]
+        a, b = rng.choice([SX, SZ, oqupy.operators.sigma("y")]), rng.choice([SX, SZ, oqupy.operators.sigma("-")])
+        l0, g0 = oqupy.operators.sigma("-"), rng.uniform(0.1, 0.5)
+        chain = oqupy.SystemChain([2, 2])
+        chain.add_site_hamiltonian(0, h0)
+        chain.add_site_hamiltonian(1, h1)
+        chain.add_nn_hamiltonian(0, a, b)
+        chain.add_site_dissipation(1, l0, g0)
+        Hp = np.kron(h0, np.eye(2)) + np.kron(np.eye(2), h1) + np.kron(a, b)
+        Lp = np.kron(np.eye(2), l0)
+        I4 = np.eye(4)
+        # row-major vectorisation of the pair density matrix: vec(A rho B) = (A (x) B^T) vec(rho)
+        Lfull = -1j * (np.kron(Hp, I4) - np.kron(I4, Hp.T)) + g0 * (np.kron(Lp, Lp.conj()) - 0.5 * np.kron(Lp.conj().T @ Lp, I4)
+                                                                    - 0.5 * np.kron(I4, (Lp.conj().T @ Lp).T))
+        for order in (1, 2):
+            dt = rng.choice([0.1, 0.3])
+            prop = compute_tebd_propagator(chain, dt, 1e-13, order)
+            frac = {1: 4, 2: 2}[order]
+            gates = [g for layer in prop.gate_layers for g in layer.gates]
+            chk.search_cases += 1
+            want = expm(dt * frac / 4 * Lfull).reshape(2, 2, 2, 2, 2, 2, 2, 2)      # (i0 i1 j0 j1 ; i0' i1' j0' j1')
+            # library layout: site-major Liouville indices ((i0 j0), (i1 j1))
+            want = want.transpose(0, 2, 1, 3, 4, 6, 5, 7).reshape(16, 16)
+            bad = len(gates) != {1: 1, 2: 2}[order]
+            for g in gates:
+                tl, tr = g.tensors
+                G = np.einsum("abc,cde->adbe", tl, tr).reshape(16, 16)
+                bad = bad or not np.allclose(G, want, atol=1e-9, rtol=0)
+            if bad:
+                chk.fail("two-site-gate", "the gate(s) of a two-site chain are not the exact pair propagator for (layer fraction) x dt",
+                         {"order": order, "dt": dt, "gates": len(gates)})
+    chk.count("two_site_gates_checked")
 
     # ---- (c) exactness where checkable ----------------------------------------------------------
     eps = 1e-8
